@@ -157,6 +157,24 @@ func genRbsOverload(r *RNG) rbsOverload {
 				o.optKw[kwNames[i]] = genRbsType(r, 0)
 			}
 		}
+		if r.Chance(1, 3) {
+			// keyword names that differ in letter case only: the emitted order
+			// must not hang on how a comparison treats them
+			pairs := [][2]string{{"maxSize", "maxsize"}, {"readOnly", "readonly"}, {"alphA", "alpha"}, {"keyID", "keyId"}}
+			Shuffle(r, pairs)
+			for _, pr := range pairs[:1+r.Intn(3)] {
+				t := genRbsType(r, 0)
+				for _, n := range pr {
+					delete(o.reqKw, n)
+					delete(o.optKw, n)
+				}
+				if r.Bool() {
+					o.reqKw[pr[0]], o.reqKw[pr[1]] = t, t
+				} else {
+					o.optKw[pr[0]], o.optKw[pr[1]] = t, t
+				}
+			}
+		}
 	}
 	o.ret = genRbsType(r, 1)
 	if r.Chance(1, 8) {
@@ -249,7 +267,7 @@ func genRbsDoc(r *RNG) []rbsClass {
 			nsMethod := false
 			no := 1
 			if r.Chance(1, 4) {
-				no = 2
+				no = 2 + r.Intn(2)
 			}
 			m.arity = r.Bool()
 			for q := 0; q < no; q++ {
@@ -592,6 +610,39 @@ func judgeRbs(c *CheckCtx, s *Slot, classes []rbsClass, rc *rbsCase) *Violation 
 				}
 				sb.WriteString(call + "\n")
 				exps = append(exps, expect{row, accept, fmt.Sprintf("%s.%s with %d positional(s)", cl.name, m.name, k), shapeOf(m)})
+				// the same positionals without any keyword: rejected when every
+				// overload that admits k positionals requires a keyword
+				if accept {
+					needKw, free := false, false
+					for _, o := range m.overloads {
+						min := len(o.req) + len(o.trail)
+						max := min + len(o.opt)
+						if k >= min && (k <= max || o.rest != nil) {
+							if len(o.reqKw) > 0 {
+								needKw = true
+							} else {
+								free = true
+							}
+						}
+					}
+					// (not for the shape with a listed finding: its positional
+					// binding is known to be off, which decides this call too)
+					if needKw && !free && shapeOf(m) != "trailing-after-optional-or-rest" {
+						var pos []string
+						for _, a := range args {
+							if !strings.Contains(a, ": ") {
+								pos = append(pos, a)
+							}
+						}
+						row++
+						call := target + "." + m.name + "(" + strings.Join(pos, ", ") + ")"
+						if m.overloads[0].block {
+							call += " { |bx| bx }"
+						}
+						sb.WriteString(call + "\n")
+						exps = append(exps, expect{row, false, fmt.Sprintf("%s.%s with %d positional(s) and no keyword although one is required", cl.name, m.name, k), shapeOf(m) + "+required-keyword-omitted"})
+					}
+				}
 			}
 		}
 	}
@@ -665,7 +716,7 @@ func init() {
 			return judgeRbs(c, s, nil, &rc)
 		},
 		Run: func(c *CheckCtx) {
-			c.rule = "generated RBS AST documents (the JSON the embedded Ruby script prints: classes, modules, superclasses, instance/singleton methods, 1-2 overloads with required/optional/rest/trailing positionals, 0-5 required/optional keywords, blocks, initialize, a nested class used as parameter type under its qualified name) fed to ti-rbs2json through a stand-in `ruby` first on PATH that prints the prepared document; each document is converted 6 times (byte equality), the emitted argument order/flags and the type mapping are compared with the declaration, and ti - loaded with the shipped configuration plus the emitted classes - is asked to check calls with 0..6 positional arguments (required keywords supplied), which must be accepted exactly when some overload's arity admits them. distinct_nontrivial = distinct documents"
+			c.rule = "generated RBS AST documents (the JSON the embedded Ruby script prints: classes, modules, superclasses, instance/singleton methods, 1-3 overloads with required/optional/rest/trailing positionals, 0-5 required/optional keywords (also names that differ in letter case only), blocks, initialize, a nested class used as parameter type under its qualified name) fed to ti-rbs2json through a stand-in `ruby` first on PATH that prints the prepared document; each document is converted 6 times (byte equality), the emitted argument order/flags and the type mapping are compared with the declaration, and ti - loaded with the shipped configuration plus the emitted classes - is asked to check calls with 0..6 positional arguments (required keywords supplied), which must be accepted exactly when some overload's arity admits them, and rejected without keywords when every admitting overload requires one. distinct_nontrivial = distinct documents"
 			c.assumptions = []string{"the stand-in `ruby` replaces only the `rbs` parser invocation; the converter binary itself is the real one built from the tree", "type mapping judged: Integer, String, Float, Symbol, bool, nil, void, untyped, self, optional, union, Array[T], Hash"}
 			r := c.RNG.Sub(25)
 			n := c.N(70, 1500)
